@@ -143,6 +143,13 @@ def cases(tier: str) -> list[dict[str, Any]]:
         cs.append({"stop": ("attempt", 4), "wait": 1, "dur": 0.7, "busy_block": bb, "clause": "attempt_budget"})
         cs.append({"stop": ("delay", 10.0), "wait": 1, "dur": 0.7, "busy_block": bb, "clause": "delay_budget"})
         cs.append({"stop": ("or", ("attempt", 3), ("delay", 10.0)), "wait": 0, "dur": 0.25, "busy_block": bb, "clause": "composed_budget"})
+    # nested compositions mixing | and & (group as left and as right operand)
+    A, D = (lambda n: ("attempt", n)), (lambda d: ("delay", d))
+    for t in (("or", ("and", A(4), D(10000.0)), A(6)), ("and", ("or", A(2), D(10000.0)), A(5)),
+              ("or", A(6), ("and", A(4), D(10000.0))), ("and", A(5), ("or", A(2), D(10000.0))),
+              ("or", ("and", A(2), D(2.5)), A(5)), ("and", ("or", A(4), D(2.5)), A(2))):
+        for wait, dur in ((0, 0.0), (1, 0.7)):
+            cs.append({"stop": t, "wait": wait, "dur": dur, "clause": "composed_budget"})
     # budgets given as timedelta values with a sub-second part
     for d in (0.5, 2.5):
         for wait, dur in ((1, 0.7), (1, 0.0), (0.25, 0.25)):
@@ -187,9 +194,17 @@ def check_case(case: dict[str, Any]) -> tuple[dict[str, Any], list[tuple[str, di
         raised.append(ex)
         return ex
 
-    obs = run_failing(build_policy(case), exc_for, dur=case["dur"], clock=tuple(case["clock"]),
-                      wall_adapter=case["wall_adapter"], with_handler=case["handler"],
-                      queue_wait=case.get("queue_wait", 0.0), busy_block=case.get("busy_block", 0.0))
+    from vmc.loop import Livelock
+
+    try:
+        obs = run_failing(build_policy(case), exc_for, dur=case["dur"], clock=tuple(case["clock"]),
+                          wall_adapter=case["wall_adapter"], with_handler=case["handler"],
+                          queue_wait=case.get("queue_wait", 0.0), busy_block=case.get("busy_block", 0.0))
+    except Livelock:
+        # zero delay, zero duration and a policy that never gives up: the step is retried for ever without the loop
+        # ever going quiet - every case of this grid has a finite budget
+        return {"executions": len(raised)}, [("run_does_not_finish", {"stop": case["stop"][0], "policy": case.get("policy", "composed")},
+                                              f"case={case}: retried {len(raised)}+ times without end (budget {ref['executions']} executions)")]
     v: list[tuple[str, dict[str, Any], str]] = []
     clock_kind = ("wall_adapter" if case["wall_adapter"] else
                   "bases_equal" if case["clock"][0] == case["clock"][1] else "bases_differ")
